@@ -481,8 +481,11 @@ impl S22ServerReader {
                 if pad > MAX_PADDING {
                     return spec(format!("padding {pad} > 900"));
                 }
-                // SIP022 asks clients to pad a request without payload; deployed clients (shadowsocks-rust) draw the
-                // padding length from 0..=900, so a zero draw is not treated as a violation here
+                // SIP022 3.1.3: a request that carries no initial payload MUST carry padding, and servers MUST reject a
+                // request that has neither (sing-shadowsocks: "missing payload or padding")
+                if pad == 0 && payload.is_empty() {
+                    return spec("request header carries neither payload nor padding");
+                }
             }
             self.addr = Some(a);
             self.padding_len = Some(pad);
